@@ -7,7 +7,7 @@ from harness.common import run_check, expectation
 from harness.pgcat_state import *
 from mirsym.interp import Panic, Inconclusive
 from mirsym.values import *
-from mirsym.models.util import mkstr, deref
+from mirsym.models.util import mkstr, deref, some, none
 from native import oracle
 
 IDS = ['0', '1', '2', '00', '01', '+1', 'x', '', '9223372036854775808', '18446744073709551616']
@@ -260,6 +260,50 @@ def c15_fc(ids, role):
     return f
 
 
+@expectation('c15_authq')
+def c15_authq():
+    def f(res):
+        r = res[0]
+        if 'error' in r:
+            return False, 'native: %r' % (r,)
+        return (bool(r.get('accepted')) and bool(r.get('build_panics')), 'native: Config::validate %s the configuration; building its auth pass-through %s' %
+                ('accepts' if r.get('accepted') else 'rejects', 'PANICS (%s)' % r.get('build_panics') if r.get('build_panics') else 'succeeds'))
+    return f
+
+
+def o4_auth_query(chk, prog):
+    """The auth_query triple: whatever combination of auth_query / auth_query_user / auth_query_password validation lets through (every user has a
+    password, so none of them is required), the pool builder's AuthPassthrough::from_pool_config does not panic on it."""
+    ob = chk.begin('O4-auth-query', 'AuthPassthrough::from_pool_config (what ConnectionPool::from_config calls for every server) on a pool whose auth_query, auth_query_user '
+                   'and auth_query_password are each present or absent (solver\'s choice), restricted to the combinations Config::validate accepts when every user '
+                   'has a password (auth_query present => user and password present): no panic', {})
+    from checks.serverfam import fn as _fn
+    f_ = _fn(prog, 'AuthPassthrough::from_pool_config')
+    fn_default = prog.lookup('<Pool as Default>::default')
+    ip = chk.interp(prog, 'O4-auth-query')
+
+    def harness(ip_):
+        pool = ip_.call_function(fn_default[0], [])
+        present = {}
+        for k in ('auth_query', 'auth_query_user', 'auth_query_password'):
+            present[k] = ip_.choose(2, k) == 1
+            setf(prog, pool, 'Pool', k, some(ip_, rstring('x')) if present[k] else none(ip_))
+        if present['auth_query'] and not (present['auth_query_user'] and present['auth_query_password']):
+            return          # Config::validate rejects this one
+        ob.nontrivial += 1
+        try:
+            ip_.call_function(f_, [Ptr(Cell(pool, 'pool'))])
+        except Panic as p:
+            chk.report(ob, 'C15/O4/auth-query-accepted-but-unbuildable', 'a pool with %s is accepted by Config::validate (every user has a password) but building the pool panics '
+                       'in AuthPassthrough::from_pool_config: %s' % (', '.join('%s %s' % (k, 'set' if v else 'unset') for k, v in present.items()), p.msg), {'present': present},
+                       {'commands': [{'op': 'auth_query_config', 'present': present}], 'expect': ['c15_authq']})
+        if len(ob.samples) < 2:
+            ob.samples.append({'present': present})
+    ip.explore(harness)
+    chk.absorb(ob, ip)
+    chk.end(ob)
+
+
 def o3_build(chk, prog, ids, role, prop='C15'):
     """accepted => servable, end to end: the real Pool::validate, then (if accepted) the real ConnectionPool::from_config."""
     from checks import fromconfig as FC
@@ -401,6 +445,7 @@ def main(chk):
         tasks.append((o3_build, (prog, list(ids), 'any')))
     for role in ROLES[1:]:
         tasks.append((o3_build, (prog, ['0'], role)))
+    tasks.append((o4_auth_query, (prog,)))
     chk.parallel(_dispatch, tasks)
 
 
